@@ -60,7 +60,13 @@ type c10Case struct {
 var c10Insts = func() []*tn {
 	var out []*tn
 	for _, e := range registry {
-		if e.n.K == "inst" {
+		typeOnly := false
+		e.n.walk(func(n *tn, d int) {
+			if fxStd[n.Pkg] {
+				typeOnly = true // used in type expressions only (C11)
+			}
+		}, 0)
+		if e.n.K == "inst" && !typeOnly {
 			out = append(out, e.n)
 		}
 	}
